@@ -51,6 +51,7 @@ structure FullSpec (w : World) (s : Source) (c : Cache) (r : Result) : Prop wher
   outSp : r.mt.outSp = ⟨s.id1, s.masterOff - s.snapLen⟩
   after : ∀ k, cacheAfter r.mt k =
     ⟨c.backend, s.id1, some (s.masterOff, s.snapLen), if k > 0 then some (s.masterOff, s.masterOff + k) else none⟩
+  cache : r.mt.cache = ⟨c.backend, s.id1, none, none⟩
 
 theorem decision_full {s : Source} (sp : SP) (c : Cache)
     (hf : (decision s sp c).ps.full = true) (hs : SourceWF s) :
@@ -93,6 +94,7 @@ theorem run_full {w : World} {s : Source} {sp : SP} {c : Cache} {d : CData}
   · simp only [hm]
   · intro k
     simp only [cacheAfter, hw]
+  · simp only [hm]
 
 /-! ### continuation after the cache was cleared (stored position asked from the source) -/
 
@@ -114,6 +116,8 @@ structure ClearSpec (w : World) (s : Source) (sp : SP) (c : Cache) (r : Result) 
   data : r.data = ⟨fun n => if sp.offset ≤ n then w.hist s.id1 (sp.offset + 1 - 1 + (n - sp.offset)) else 0, ([], 0)⟩
   after : ∀ k, cacheAfter r.mt k =
     ⟨c.backend, s.id1, none, if k > 0 then some (sp.offset, sp.offset + k) else none⟩
+  cache : r.mt.cache = ⟨c.backend, s.id1, none, none⟩
+  backlog : s.backlog = true
 
 theorem inRange_fresh_aof (be : Backend) (id : Id) {X : Int} (hX : 0 ≤ X) :
     Cache.inRange ⟨be, id, none, some (X, X)⟩ X = true := by
@@ -132,7 +136,7 @@ theorem run_clear {w : World} {s : Source} {sp : SP} {c : Cache} {d : CData}
         if (sendPSync s sp.runId sp.offset).full then loc0 else ⟨(sendPSync s sp.runId sp.offset).runId, sp.offset⟩, sp.offset⟩)
     (hf : (sendPSync s sp.runId sp.offset).full = false) :
     ClearSpec w s sp c (run w s sp c d) := by
-  obtain ⟨h0, hwire, hoff, hsid, hle, _⟩ := sendPSync_cont hs hf
+  obtain ⟨h0, hwire, hoff, hsid, hle, _, hbl⟩ := sendPSync_cont hs hf
   have hm : syncMeta s sp c =
       { loc0 := c.startPoint [s.id1, s.id2], branch := br, ps := sendPSync s sp.runId sp.offset,
         clearLocal := true, runId := s.id1, deleted := true,
@@ -167,6 +171,8 @@ theorem run_clear {w : World} {s : Source} {sp : SP} {c : Cache} {d : CData}
   · intro k
     simp only [cacheAfter, hw]
     simp only [hm]
+  · simp only [hm]
+  · exact hbl
 
 /-! ### continuation with the cache kept -/
 
@@ -193,13 +199,16 @@ structure KeepSpec (w : World) (s : Source) (sp : SP) (c : Cache) (d : CData) (r
     (r.reader = .aof sp.offset ∧ r.delivery = .stream sp.offset r.data.aofByte ∧
         (sp.runId = s.id1 ∨ sp.runId = s.id2) ∧ sp.offset ≤ c.latest ∧
         (match c.aof with | some (l, _) => l ≤ sp.offset | none => c.latest ≤ sp.offset)) ∨
-    (∃ left size, c.rdb = some (left, size) ∧ (sp.isInitial = true ∨ sp.offset < left) ∧
+    (∃ left size, c.rdb = some (left, size) ∧
+        (sp.isInitial = true ∨ ((sp.runId = s.id1 ∨ sp.runId = s.id2) ∧ sp.offset < left)) ∧
         r.reader = .rdb left size ∧ r.delivery = .snapshot d.rdbTok left size)
   after : ∀ k, cacheAfter r.mt k =
     { c with runId := s.id1,
              aof := match c.aof with
                | some (l, r) => some (l, r + k)
                | none => if k > 0 then some (c.latest, c.latest + k) else none }
+  cache : r.mt.cache = { c with runId := s.id1 }
+  backlog : s.backlog = true
 
 theorem kept_wf {c : Cache} (hc : CacheWF c) (hl : 0 ≤ c.latest) {id : Id} (h1 : id ≠ []) (h2 : id ≠ qId) :
     CacheWF { c with runId := id, aof := keptAof c } := by
@@ -215,7 +224,7 @@ theorem kept_covers {c : Cache} {off : Int} (id : Id) (h : rdbCovers c off ∨ a
   obtain ⟨be, rid, rdb, aof⟩ := c
   cases rdb <;> cases aof <;>
     (try rename_i x; obtain ⟨a, b⟩ := x) <;> (try rename_i y; obtain ⟨a', b'⟩ := y) <;>
-    simp_all [keptAof, rdbCovers, aofCovers]
+    simp_all [keptAof, rdbCovers, aofCovers, Cache.latest] <;> omega
 
 /-- reader on a kept cache at an offset the cache reported valid -/
 theorem openReader_keep_valid {c : Cache} (hc : CacheWF c) {off : Int} (hv : c.inRange off = true)
@@ -241,7 +250,9 @@ theorem openReader_keep_valid {c : Cache} (hc : CacheWF c) {off : Int} (hv : c.i
     · left; simp [e] <;> omega
     · right; refine ⟨left, size, rfl, by omega, ?_⟩
       simp [e] <;> omega
-  · by_cases e : l ≤ off ∧ r ≥ off
+  · have hcg' : left ≤ l := by split at hcg <;> omega
+    simp only [reduceCtorEq, and_false, or_false] at hv
+    by_cases e : l ≤ off ∧ r ≥ off
     · left; simp [e] <;> omega
     · right; refine ⟨left, size, rfl, by omega, ?_⟩
       simp [e] <;> omega
@@ -260,7 +271,8 @@ theorem openReader_keep_rdb {c : Cache} (hc : CacheWF c) {left size : Int} (hr :
     | none => rw [ha] at h4; simp only at h4; rw [latest_rdb ha hr] at h4; omega
     | some p =>
       obtain ⟨l, r⟩ := p
-      rw [ha] at h4 hcg; simp only at h4 hcg; omega
+      rw [ha] at h4 hcg; simp only at h4 hcg
+      split at hcg <;> omega
   · rw [hr] at e; cases e; exact h
 
 theorem run_keep {w : World} {s : Source} {sp : SP} {c : Cache} {d : CData}
@@ -283,8 +295,9 @@ theorem run_keep {w : World} {s : Source} {sp : SP} {c : Cache} {d : CData}
       { c with runId := s.id1,
                aof := match c.aof with
                  | some (l, r) => some (l, r + k)
-                 | none => if k > 0 then some (c.latest, c.latest + k) else none }) := by
-  obtain ⟨h0, _, _, hsid, hle, _⟩ := sendPSync_cont hs hcont
+                 | none => if k > 0 then some (c.latest, c.latest + k) else none }) ∧
+    r.mt.cache = { c with runId := s.id1 } ∧ s.backlog = true := by
+  obtain ⟨h0, _, _, hsid, hle, _, hbl⟩ := sendPSync_cont hs hcont
   obtain ⟨hpf, hpw, hpr⟩ := hps
   have hreal : c.runId ≠ [] := by
     rcases hcid with e | e <;> rw [e]
@@ -309,7 +322,7 @@ theorem run_keep {w : World} {s : Source} {sp : SP} {c : Cache} {d : CData}
   rw [run_of_aof hw, ho] at hr
   simp only [hdel, Bool.false_eq_true, if_false, hwo] at hr
   subst hr
-  refine ⟨?_, ?_, ?_, ?_, ?_, ?_, h0, hle, hsid, ?_, rfl, rfl, rfl, rfl, ?_⟩
+  refine ⟨?_, ?_, ?_, ?_, ?_, ?_, h0, hle, hsid, ?_, rfl, rfl, rfl, rfl, ?_, ?_, hbl⟩
   · simp only [hm, hpf]
   · simp only [hm]
   · simp only [hm]
@@ -323,6 +336,7 @@ theorem run_keep {w : World} {s : Source} {sp : SP} {c : Cache} {d : CData}
     cases ha : c.aof with
     | none => simp
     | some p => obtain ⟨l, r⟩ := p; simp
+  · simp only [hm]
 
 /-- every connection ends in exactly one of the three outcomes -/
 theorem run_spec {w : World} {s : Source} {sp : SP} {c : Cache} {d : CData}
@@ -336,17 +350,17 @@ theorem run_spec {w : World} {s : Source} {sp : SP} {c : Cache} {d : CData}
     cases hd with
     | keep1 hout hcid hv =>
       have hcont : (sendPSync s c.runId c.latest).full = false := by simpa using hf
-      obtain ⟨a1, a2, a3, a4, a5, a6, a7, a8, a9, a10, a11, a12, a13, a14, a15⟩ :=
+      obtain ⟨a1, a2, a3, a4, a5, a6, a7, a8, a9, a10, a11, a12, a13, a14, a15, a16, a17⟩ :=
         run_keep (w := w) (d := d) hs hdc ⟨hcont, (sendPSync_cont hs hcont).2.1, sendPSync_reqId _ _ _⟩ hcont hcid _ rfl
       right; left
-      refine ⟨a1, a2, a3, a4, a5, a6, a7, a8, a9, a10, a11, a12, ?_, a15⟩
+      refine ⟨a1, a2, a3, a4, a5, a6, a7, a8, a9, a10, a11, a12, ?_, a15, a16, a17⟩
       rcases openReader_keep_valid hc hv hs.id1_ne hs.id1_nq a7 with ⟨h1, h2, h3⟩ | ⟨left, size, e, hlt, h⟩
       · left
         rw [h1] at a13 a14
         exact ⟨a13, a14, hout, h2, h3⟩
       · right
         rw [h] at a13 a14
-        exact ⟨left, size, e, Or.inr hlt, a13, a14⟩
+        exact ⟨left, size, e, Or.inr ⟨hout, hlt⟩, a13, a14⟩
     | clear br loc0 hout =>
       have hcont : (sendPSync s sp.runId sp.offset).full = false := by simpa using hf
       exact Or.inr (Or.inr (run_clear hs hc hdc hcont))
@@ -354,10 +368,10 @@ theorem run_spec {w : World} {s : Source} {sp : SP} {c : Cache} {d : CData}
     | rdb4 left size hr hcid hcont hini =>
       have hl : c.range.2 = c.latest := range_snd hc (Or.inl (by simp [hr]))
       rw [hl] at hdc
-      obtain ⟨a1, a2, a3, a4, a5, a6, a7, a8, a9, a10, a11, a12, a13, a14, a15⟩ :=
+      obtain ⟨a1, a2, a3, a4, a5, a6, a7, a8, a9, a10, a11, a12, a13, a14, a15, a16, a17⟩ :=
         run_keep (w := w) (d := d) hs hdc ⟨hcont, (sendPSync_cont hs hcont).2.1, sendPSync_reqId _ _ _⟩ hcont hcid _ rfl
       right; left
-      refine ⟨a1, a2, a3, a4, a5, a6, a7, a8, a9, a10, a11, a12, ?_, a15⟩
+      refine ⟨a1, a2, a3, a4, a5, a6, a7, a8, a9, a10, a11, a12, ?_, a15, a16, a17⟩
       right
       rw [openReader_keep_rdb hc hr hs.id1_ne hs.id1_nq a7] at a13 a14
       exact ⟨left, size, hr, Or.inl hini, a13, a14⟩
@@ -377,13 +391,34 @@ theorem run_mt (w : World) (s : Source) (sp : SP) (c : Cache) (d : CData) :
   simp only [run]
   split <;> rfl
 
+/-- a cache whose label the source accepted for a continuation (`cid`: the current id,
+    or the previous id up to the switch offset) holds the current history -/
+theorem keep_holds {w : World} {s : Source} {c : Cache} {d : CData}
+    (hc : CacheWF c) (hok : CacheOK w s c d) (hag : Agree w s)
+    (hcid : c.runId = s.id1 ∨ (c.runId = s.id2 ∧ c.latest ≤ s.switchOff)) : Holds w s.id1 c d := by
+  rcases hcid with e | ⟨e, hle⟩
+  · exact hok.cur e
+  · rcases hok.prev e with h2 | h1
+    · obtain ⟨ha, hr⟩ := h2
+      obtain ⟨wa, wr, wc, _⟩ := hc
+      obtain ⟨be, rid, rdb, aof⟩ := c
+      simp only at ha hr wa wr wc
+      rcases rdb with _ | ⟨left, size⟩ <;> rcases aof with _ | ⟨l, r⟩ <;>
+        simp only [Cache.latest] at hle ha hr wa wr wc <;> refine ⟨?_, ?_⟩ <;> simp only
+      · intro n h1 h2; rw [ha n h1 h2]; exact hag n (by omega) (by omega)
+      · exact ⟨hr.1, fun n h0 hn => by rw [hr.2 n h0 hn]; exact hag n h0 (by omega)⟩
+      · intro n h1 h2; rw [ha n h1 h2]; exact hag n (by omega) (by omega)
+      · have : left ≤ l := by split at wc <;> omega
+        exact ⟨hr.1, fun n h0 hn => by rw [hr.2 n h0 hn]; exact hag n h0 (by omega)⟩
+    · exact h1
+
 /-- everything a log delivery implies, whatever label the stored position carries:
     it starts at the stored offset (not negative), the source granted CONTINUE for
     an id it serves, every byte from there on is the current history's, and if
     neither the stored position nor the cache is labelled with the current id the
     source has checked the offset against its switch offset. -/
 theorem stream_facts {w : World} {s : Source} {sp : SP} {c : Cache} {d : CData}
-    (hs : SourceWF s) (hc : CacheWF c) (hok : CacheOK w c d) (hag : Agree w s)
+    (hs : SourceWF s) (hc : CacheWF c) (hok : CacheOK w s c d) (hag : Agree w s)
     {start : Int} {byte : Int → UInt8} (h : (run w s sp c d).delivery = .stream start byte) :
     start = sp.offset ∧ 0 ≤ sp.offset ∧ (run w s sp c d).mt.ps.full = false ∧
     (sp.runId = s.id1 ∨ sp.runId = s.id2) ∧
@@ -395,11 +430,7 @@ theorem stream_facts {w : World} {s : Source} {sp : SP} {c : Cache} {d : CData}
     rcases hK.read with ⟨_, hdel, hout, hle, hlow⟩ | ⟨_, _, _, _, _, hdel⟩
     · rw [hdel] at h
       cases h
-      have hconv : ∀ n, 0 ≤ n → n < c.latest → w.hist c.runId n = w.hist s.id1 n := by
-        intro n h0 hn
-        rcases hcid with e | ⟨e, hle⟩
-        · rw [e]
-        · rw [e]; exact hag n h0 (by omega)
+      have hh := keep_holds hc hok hag hcid
       have h0 : 0 ≤ sp.offset := by
         cases ha : c.aof with
         | none => rw [ha] at hlow; simp only at hlow; have := hK.lat_nonneg; omega
@@ -420,10 +451,9 @@ theorem stream_facts {w : World} {s : Source} {sp : SP} {c : Cache} {d : CData}
           | some p =>
             obtain ⟨l, rr⟩ := p
             rw [ha] at hlow; simp only at hlow
-            have h1 := hok.aof_hist; rw [ha] at h1; simp only at h1
+            have h1 := hh.aof_hist; rw [ha] at h1; simp only at h1
             have hlat := latest_aof ha
-            rw [h1 n (by omega) (by omega)]
-            exact hconv n (by omega) (by omega)
+            exact h1 n (by omega) (by omega)
       · intro _ hc1
         rcases hcid with e | ⟨_, hsw⟩
         · rcases hc1 with hc1 | ⟨hr, ha⟩
@@ -447,5 +477,96 @@ theorem stream_facts {w : World} {s : Source} {sp : SP} {c : Cache} {d : CData}
       rcases hC.sid with e | ⟨_, hsw⟩
       · exact absurd e h1
       · exact hsw
+
+/-! ### the collector keeps the cache hypotheses -/
+
+theorem collected_wf {c c' : Cache} (hc : CacheWF c) (h : Collected c c') : CacheWF c' := by
+  obtain ⟨be, rid, rdb, aof⟩ := c
+  obtain ⟨be', rid', rdb', aof'⟩ := c'
+  obtain ⟨hb, hr, hrdb, haof, hord⟩ := h
+  obtain ⟨wa, wr, wc, wl⟩ := hc
+  simp only at hb hr hrdb haof hord wa wr wc wl
+  subst hb; subst hr
+  refine ⟨?_, ?_, ?_, ?_⟩
+  · -- log range
+    simp only
+    rcases aof with _ | ⟨l, r⟩
+    · simp only at haof; subst haof; trivial
+    · simp only at haof wa
+      rcases haof with e | ⟨l', e, h1, h2⟩
+      · subst e; trivial
+      · subst e; simp only; omega
+  · simp only
+    rcases hrdb with e | e <;> rw [e]
+    · exact wr
+    · trivial
+  · simp only
+    rcases hrdb with e | e
+    · rw [e]
+      rcases rdb with _ | ⟨left, size⟩
+      · trivial
+      · rcases aof with _ | ⟨l, r⟩
+        · simp only at haof; subst haof; trivial
+        · simp only at haof wc wa
+          rcases haof with e | ⟨l', e, h1, h2⟩
+          · subst e; trivial
+          · subst e
+            simp only
+            cases be'
+            · -- disk: a changed log range means the snapshot is gone
+              simp only [if_true] at wc ⊢
+              by_cases hl : l' = l
+              · omega
+              · have hnone := hord rfl (by intro x; cases x; exact hl rfl)
+                rw [e] at hnone
+                cases hnone
+            · simp only [reduceCtorEq, if_false] at wc ⊢
+              omega
+    · rw [e]; cases aof' <;> trivial
+  · intro hl
+    obtain ⟨e1, e2⟩ := wl hl
+    subst e1; subst e2
+    simp only at haof
+    refine ⟨?_, haof⟩
+    rcases hrdb with e | e <;> exact e
+
+theorem collected_holds {w : World} {hid : Id} {c c' : Cache} {d : CData} (hok : Holds w hid c d)
+    (h : Collected c c') : Holds w hid c' d := by
+  obtain ⟨be, rid, rdb, aof⟩ := c
+  obtain ⟨be', rid', rdb', aof'⟩ := c'
+  obtain ⟨hb, hr, hrdb, haof, _⟩ := h
+  obtain ⟨oa, ot⟩ := hok
+  simp only at hb hr hrdb haof oa ot
+  subst hb; subst hr
+  refine ⟨?_, ?_⟩
+  · simp only
+    rcases aof with _ | ⟨l, r⟩
+    · simp only at haof; subst haof; trivial
+    · simp only at haof oa
+      rcases haof with e | ⟨l', e, h1, h2⟩
+      · subst e; trivial
+      · subst e; simp only
+        intro n hn1 hn2
+        exact oa n (by omega) hn2
+  · simp only
+    rcases hrdb with e | e <;> rw [e]
+    · exact ot
+    · trivial
+
+theorem collected_ok {w : World} {s : Source} {c c' : Cache} {d : CData} (hok : CacheOK w s c d)
+    (h : Collected c c') : CacheOK w s c' d :=
+  ⟨fun e => collected_holds (hok.cur (by rw [← h.runId]; exact e)) h,
+   fun e => (hok.prev (by rw [← h.runId]; exact e)).imp (fun x => collected_holds x h) (fun x => collected_holds x h)⟩
+
+theorem collected_notYetCurrent {s : Source} {c c' : Cache} (h : Collected c c')
+    (hn : NotYetCurrent s c) : NotYetCurrent s c' := by
+  rcases hn with hn | ⟨hr, ha⟩
+  · exact Or.inl (by rw [h.runId]; exact hn)
+  · right
+    have h1 := h.rdb
+    have h2 := h.aof
+    rw [hr] at h1
+    rw [ha] at h2
+    exact ⟨by rcases h1 with e | e <;> exact e, h2⟩
 
 end GunYu.Psync
